@@ -1,4 +1,5 @@
 import DracoModel.SeqDecoder
+import DracoModel.SymbolLegacy
 import DracoProofs.Rans
 import DracoProofs.Tagged
 import DracoProofs.QuantPipeline
@@ -286,6 +287,53 @@ theorem decodeSymbols_length (k nc : Nat) (bs : Bytes) (vals : List Nat) (rest :
                 · cases h
                 · unfold decodeRans at h
                   split at h
+                  · cases h
+                  · cases h
+                    rw [ransReadNTR_eq]; simp [ransReadN_length]
+            · cases h
+        · cases h
+
+/-- the same for the symbol decoder of every bitstream version -/
+theorem decodeSymbolsV_length (legacy : Bool) (k nc : Nat) (bs : Bytes) (vals : List Nat) (rest : Bytes)
+    (h : decodeSymbolsV legacy (k * nc) nc bs = some (vals, rest)) : vals.length = k * nc := by
+  unfold decodeSymbolsV at h
+  split at h
+  · exact decodeSymbols_length k nc bs vals rest h
+  split at h
+  · rename_i h0; cases h; simp [h0]
+  · split at h
+    · cases h
+    · rename_i scheme rest0
+      split at h
+      · unfold decodeTaggedSymbolsV at h
+        split at h
+        · cases h
+        · split at h
+          · cases h
+          · split at h
+            · cases h
+            · split at h
+              · cases h
+              · rename_i hnc
+                dsimp only at h
+                split at h
+                · cases h
+                · rename_i vals' r hl
+                  cases h
+                  have hpos : 0 < nc := Nat.pos_of_ne_zero hnc
+                  have := decodeTaggedLoop_length _ _ _ _ _ _ _ _ _ hl
+                  rw [this, groups_div k nc hpos]; simp
+      · split at h
+        · unfold decodeRawSymbolsV at h
+          split at h
+          · cases h
+          · split at h
+            · dsimp only at h
+              split at h
+              · cases h
+              · split at h
+                · cases h
+                · split at h
                   · cases h
                   · cases h
                     rw [ransReadNTR_eq]; simp [ransReadN_length]
